@@ -78,6 +78,11 @@ def image_spec(fspec, spec, cls):
             "layers": layers}
 
 
+def name_key(box):
+    return (box.name, frozenset([specs.tkey(box.dom), specs.tkey(box.cod)]),
+            type(box).__name__)
+
+
 def build_functor(fspec, cls):
     m = specs.mod(cls)
     obmap = fspec["ob"]
@@ -96,6 +101,16 @@ def build_functor(fspec, cls):
         ar[box] = specs.build(img, fspec.get("route", "ctor"))
     if fspec.get("callable"):
         ob_d, ar_d = ob, ar
+        # a callable that computes the image from the box's name and types
+        # (it never looks at the dagger flag: the library hands it the
+        # generator, not the daggered box); falls back to the mapping when two
+        # generators share a name and an unordered pair of types
+        by_name = {}
+        for box, img in ar.items():
+            by_name.setdefault(name_key(box), []).append(img)
+        if all(len(v) == 1 for v in by_name.values()):
+            return m.Functor(lambda t: ob_d[t],
+                             lambda f: by_name[name_key(f)][0])
         return m.Functor(lambda t: ob_d[t], lambda f: ar_d[f])
     return m.Functor(ob, ar)
 
